@@ -194,10 +194,10 @@ def run(ctx):
             jobs.append((inp, ex, "in-function"))
             jobs.append((inp, ex, "relative"))
     ctx.cov["bounds"] = {"inputs": INPUTS, "extras": EXTRAS, "cases": len(jobs)}
-    ctx.sweep(run_case, jobs, space="inputs x extra-argument lists", selftest=1, chunk=1)
+    ctx.sweep(run_case, jobs, space="inputs x extra-argument lists", selftest=1, chunk=1, isolate=False)
     seq = [(inp, e1, e2, edit) for inp in ("file", "flat", "nested")
            for e1, e2, edit in (([], [], "content"), ([], ["p"], "none"), (["p"], [], "content"), ([], [], "break"))]
-    ctx.sweep(run_sequence, seq, space="two calls on one output directory with an edit in between", selftest=0, chunk=1)
+    ctx.sweep(run_sequence, seq, space="two calls on one output directory with an edit in between", selftest=0, chunk=1, isolate=False)
     ctx.assumptions += ["empty-string extra arguments are not generated (CMake list expansion drops them by design)",
                         "the package config template (needs an installed build) is not executed; CMINX_EXECUTABLE is bound by the driver"]
     return RULE
